@@ -27,6 +27,12 @@ run selftest/mustpass/07_reordered_independent_inits_CreateTable.diff pass C12 C
 for d in seeded/C*/; do
   id=$(basename $d)
   props=$(python3 -c "import json,sys; m=json.load(open('$d/meta.json')); print(' '.join(m.get('run_checks',[m['property']])))")
+  gap=$(python3 -c "import json; print(json.load(open('$d/meta.json')).get('expected',''))")
+  if [ "$gap" = missed ]; then
+    # documented gap (DESIGN 12.11): run it, report, do not count as a failure of the corpus
+    echo "$d/patch.diff (documented gap)"; tools/seedrun.sh $d/patch.diff $props
+    continue
+  fi
   run $d/patch.diff fail $props
 done
 for f in selftest/mustfail/*.diff; do
